@@ -18,6 +18,8 @@ mod minmax;
 mod moments;
 mod pairs;
 mod par;
+mod qlong;
+mod qref;
 mod quantile;
 mod record;
 mod report;
@@ -236,6 +238,13 @@ fn main() {
                 list(&m, "embeddings", "E0,E1,E2,E3,E4,E5"),
                 &mut r,
             );
+            r
+        }
+        ("direct", Some("qlong")) => {
+            let mut r = Report::default();
+            let seed: u64 = m.get("seed").and_then(|s| s.parse().ok()).unwrap_or(1);
+            let max_n: usize = m.get("max_n").and_then(|s| s.parse().ok()).unwrap_or(2000);
+            qlong::direct_qlong(&m["prop"], seed, max_n, &mut r);
             r
         }
         ("direct", Some("histserde")) => {
